@@ -1,0 +1,48 @@
+//go:build verif
+
+// Contracts for package config, read by /verif/govc (comment-only file: no declarations).
+package config
+
+//@ -- C19: unset fields take the documented defaults, explicitly set values are never overridden,
+//@ -- and nothing else in the configuration changes.
+
+//@ pred boolKept(p, q) := q == p && *q == old(*now(p))
+//@ pred boolDefaulted(q, def) := q != nil && fresh(q) && *q == def
+//@ pred boolCells() := forall p: *bool :: old(allocated(p)) ==> *p == old(*p)
+
+//@ func boolDefault(cur *bool, def bool) (ret *bool)
+//@   props C19
+//@   ensures [set-kept] cur != nil ==> ret == cur
+//@   ensures [unset-default] cur == nil ==> ret != nil && fresh(ret) && *ret == def
+//@   ensures [cells] boolCells()
+
+//@ func (c *Config) SetDefaults()
+//@   props C19
+//@   requires c != nil
+//@   ensures [delete-enabled] (old(c.API.DeleteEnabled) != nil ==> c.API.DeleteEnabled == old(c.API.DeleteEnabled)) && (old(c.API.DeleteEnabled) == nil ==> boolDefaulted(c.API.DeleteEnabled, false))
+//@   ensures [push-enabled] (old(c.API.PushEnabled) != nil ==> c.API.PushEnabled == old(c.API.PushEnabled)) && (old(c.API.PushEnabled) == nil ==> boolDefaulted(c.API.PushEnabled, true))
+//@   ensures [blob-delete-enabled] (old(c.API.Blob.DeleteEnabled) != nil ==> c.API.Blob.DeleteEnabled == old(c.API.Blob.DeleteEnabled)) && (old(c.API.Blob.DeleteEnabled) == nil ==> boolDefaulted(c.API.Blob.DeleteEnabled, false))
+//@   ensures [referrer-enabled] (old(c.API.Referrer.Enabled) != nil ==> c.API.Referrer.Enabled == old(c.API.Referrer.Enabled)) && (old(c.API.Referrer.Enabled) == nil ==> boolDefaulted(c.API.Referrer.Enabled, true))
+//@   ensures [read-only] (old(c.Storage.ReadOnly) != nil ==> c.Storage.ReadOnly == old(c.Storage.ReadOnly)) && (old(c.Storage.ReadOnly) == nil ==> boolDefaulted(c.Storage.ReadOnly, false))
+//@   ensures [gc-untagged] (old(c.Storage.GC.Untagged) != nil ==> c.Storage.GC.Untagged == old(c.Storage.GC.Untagged)) && (old(c.Storage.GC.Untagged) == nil ==> boolDefaulted(c.Storage.GC.Untagged, false))
+//@   ensures [gc-empty-repo] (old(c.Storage.GC.EmptyRepo) != nil ==> c.Storage.GC.EmptyRepo == old(c.Storage.GC.EmptyRepo)) && (old(c.Storage.GC.EmptyRepo) == nil ==> boolDefaulted(c.Storage.GC.EmptyRepo, true))
+//@   ensures [gc-referrers-dangling] (old(c.Storage.GC.ReferrersDangling) != nil ==> c.Storage.GC.ReferrersDangling == old(c.Storage.GC.ReferrersDangling)) && (old(c.Storage.GC.ReferrersDangling) == nil ==> boolDefaulted(c.Storage.GC.ReferrersDangling, false))
+//@   ensures [gc-referrers-with-subj] (old(c.Storage.GC.ReferrersWithSubj) != nil ==> c.Storage.GC.ReferrersWithSubj == old(c.Storage.GC.ReferrersWithSubj)) && (old(c.Storage.GC.ReferrersWithSubj) == nil ==> boolDefaulted(c.Storage.GC.ReferrersWithSubj, true))
+//@   -- explicitly set switches keep their value: no bool that existed before the call is written
+//@   ensures [set-values-untouched] boolCells()
+//@   ensures [manifest-limit] (old(c.API.Manifest.Limit) > 0 ==> c.API.Manifest.Limit == old(c.API.Manifest.Limit)) && (old(c.API.Manifest.Limit) <= 0 ==> c.API.Manifest.Limit == 8388608)
+//@   ensures [page-cache-expire] (old(c.API.Referrer.PageCacheExpire) != 0 ==> c.API.Referrer.PageCacheExpire == old(c.API.Referrer.PageCacheExpire)) && (old(c.API.Referrer.PageCacheExpire) == 0 ==> c.API.Referrer.PageCacheExpire == 300000000000)
+//@   ensures [page-cache-limit] (old(c.API.Referrer.PageCacheLimit) != 0 ==> c.API.Referrer.PageCacheLimit == old(c.API.Referrer.PageCacheLimit)) && (old(c.API.Referrer.PageCacheLimit) == 0 ==> c.API.Referrer.PageCacheLimit == 1000)
+//@   ensures [referrers-limit] (old(c.API.Referrer.Limit) != 0 ==> c.API.Referrer.Limit == old(c.API.Referrer.Limit)) && (old(c.API.Referrer.Limit) == 0 ==> c.API.Referrer.Limit == 4194304)
+//@   ensures [gc-frequency] (old(c.Storage.GC.Frequency) != 0 ==> c.Storage.GC.Frequency == old(c.Storage.GC.Frequency)) && (old(c.Storage.GC.Frequency) == 0 ==> c.Storage.GC.Frequency == 900000000000)
+//@   ensures [gc-grace-period] (old(c.Storage.GC.GracePeriod) != 0 ==> c.Storage.GC.GracePeriod == old(c.Storage.GC.GracePeriod)) && (old(c.Storage.GC.GracePeriod) == 0 ==> c.Storage.GC.GracePeriod == 3600000000000)
+//@   ensures [repo-upload-max] (old(c.Storage.GC.RepoUploadMax) != 0 ==> c.Storage.GC.RepoUploadMax == old(c.Storage.GC.RepoUploadMax)) && (old(c.Storage.GC.RepoUploadMax) == 0 ==> c.Storage.GC.RepoUploadMax == 1000)
+//@   ensures [root-dir] (old(c.Storage.StoreType) == 2 && old(c.Storage.RootDir) == "" ==> c.Storage.RootDir == ".") && (!(old(c.Storage.StoreType) == 2 && old(c.Storage.RootDir) == "") ==> c.Storage.RootDir == old(c.Storage.RootDir))
+//@   ensures [others-unchanged] c.Storage.StoreType == old(c.Storage.StoreType) && c.HTTP == old(c.HTTP) && c.Log == old(c.Log) && c.API.RateLimit == old(c.API.RateLimit) && c.API.Warnings == old(c.API.Warnings)
+
+//@ func (s *Store) UnmarshalText(b []byte) (err error)
+//@   props C19
+//@   requires s != nil
+//@   ensures [frame] forall p: *Store :: p != s ==> *p == old(*p)
+//@   ensures [known] err == nil ==> *s == 1 || *s == 2 || *s == 3
+//@   ensures [unknown-kept] err != nil ==> *s == old(*s)
